@@ -95,6 +95,7 @@ func cmdRun(args []string) int {
 	smtlog := fs.String("smtlog", "", "write solver dialogue of worker 0 here (single path mode)")
 	abstract := fs.Bool("abstract", true, "tier-1 float abstraction")
 	solver := fs.String("solver", "z3-new", "primary incremental solver: z3-new | cvc5")
+	realMode := fs.Bool("real", false, "exact-real interpretation of floats")
 	subtree := fs.String("subtree", "", "explore only under this decision prefix")
 	cpuprof := fs.String("cpuprofile", "", "write CPU profile")
 	slow := fs.String("slowlog", "", "directory for scripts of slow queries")
@@ -106,6 +107,7 @@ func cmdRun(args []string) int {
 	}
 	smt.SlowLog = *slow
 	smt.SolverPath = *solver
+	smt.RealMode = *realMode
 	smt.Abstract = *abstract
 	t0 := time.Now()
 	_, _, pkgs, err := buildOverlay()
